@@ -17,22 +17,25 @@ import (
 )
 
 type Obligation struct {
-	Name     string
-	Class    string
-	Fn       string
-	Goal     *Term // must be valid under hyps[:NHyps]
-	NHyps    int
-	Optional bool   // Houdini candidate / frame candidate: failure is not a violation
-	CandKey  string // loopKey|candName for optional ones
-	Alts     []*Term
-	Bounded  string // non-empty: bounded stand-in, with the bound
-	Status   string // discharged refuted unknown
-	Solver   string
-	Millis   int64
-	Model    map[string]string
-	Raw      string
-	ValTerms []*Term
-	ValNames []string
+	Name       string
+	Class      string
+	Fn         string
+	Goal       *Term // must be valid under hyps[:NHyps]
+	NHyps      int
+	Optional   bool   // Houdini candidate / frame candidate: failure is not a violation
+	CandKey    string // loopKey|candName for optional ones
+	Alts       []*Term
+	prevSolver string
+	prevMillis int64
+	HypIdx     int    // index of the hypothesis that assumes this obligation afterwards (-1: none)
+	Bounded    string // non-empty: bounded stand-in, with the bound
+	Status     string // discharged refuted unknown
+	Solver     string
+	Millis     int64
+	Model      map[string]string
+	Raw        string
+	ValTerms   []*Term
+	ValNames   []string
 }
 
 type loopAct struct {
@@ -146,6 +149,11 @@ func (ex *Exec) unsupported(msg string) {
 }
 
 func (ex *Exec) assumeGlobal(t *Term) {
+	// facts derived while executing an instruction may rest on simplifications that are
+	// valid only under that instruction's reach condition: guard them with it
+	if ex.cur != nil && !ex.cur.IsTrue() {
+		t = Implies(ex.cur, t)
+	}
 	if containsBound(t) {
 		t = Forall(t) // a fact about a term under a quantifier holds for every instance
 	}
@@ -197,7 +205,14 @@ func (ex *Exec) oblige(class, what string, reach, cond *Term) *Obligation {
 		o.Solver = "syntactic"
 	}
 	ex.obls = append(ex.obls, o)
-	ex.assumeGlobal(goal)
+	o.HypIdx = -1
+	if class != "step" {
+		o.HypIdx = len(ex.hyps)
+		// assert-then-assume: one defect gives one failing obligation.  Step predicates are
+		// pure observations (nothing later depends on them) and belong to other properties,
+		// so they must not hide a failing variant or bounds obligation of the same iteration.
+		ex.assumeGlobal(goal)
+	}
 	return o
 }
 
@@ -515,6 +530,7 @@ func (ex *Exec) execBlock(f *Frame, b *ssa.BasicBlock, entry *Term) {
 	}
 	f.reach[b] = reach
 	f.cur = reach
+	ex.cur = reach
 	if reach.IsFalse() {
 		return
 	}
